@@ -44,7 +44,10 @@ Evil == <<
   <<132, 255, 255, 255, 255>>, <<136>> \o Rep(255, 8), <<137>> \o Rep(255, 9), <<255>>,   \* 4 / 8 / 9 length octets, reserved 0xFF
   <<31, 255, 255, 255, 255, 255, 255, 255, 255, 255, 127>>,  \* high tag number form beyond 64 bits
   <<31, 128>>, <<31>>,                            \* high tag number form, unterminated
-  <<2, 9>> \o Rep(255, 9), <<2, 0>>, <<1, 2, 0, 0>>          \* INTEGER of 9 / 0 octets, BOOLEAN of 2 octets
+  <<2, 9>> \o Rep(255, 9), <<2, 0>>, <<1, 2, 0, 0>>,         \* INTEGER of 9 / 0 octets, BOOLEAN of 2 octets
+  \* long-form lengths whose LOW octet alone would be a legal content length (a length compared in one octet passes)
+  <<130, 1, 0>>, <<130, 1, 8>>, <<130, 2, 4>>, <<131, 1, 0, 1>>, <<132, 1, 0, 0, 8>>,
+  <<2, 130, 1, 0>>, <<2, 130, 1, 8>>, <<2, 130, 10, 3>>, <<10, 130, 1, 1>>, <<2, 132, 255, 255, 255, 8>>
 >>
 
 Kinds == {"flip", "trunc", "del", "ins", "set", "splice"}
